@@ -1080,6 +1080,21 @@ def _c20_per_sig(ps, ctr):
                             fails.append('s-pre-binding: f(..., pre=%r, future=%s): the annotation of a denotes %r' % ('T = ' + val, future, hints.get('a')))
             except Exception as e:  # noqa
                 fails.append('s-pre-binding-raises: %s %s' % (type(e).__name__, e))
+        # a return annotation that IS None (`-> None`) is a return annotation: every spelling, eager and postponed
+        for kw in ({}, dict(use_modifiers_annotate=True), dict(future_features=('annotations',)),
+                   dict(use_modifiers_kwoargs=True), dict(use_modifiers_annotate=True, future_features=('annotations',))):
+            try:
+                with warnings.catch_warnings():
+                    warnings.simplefilter('ignore')
+                    sg = support.s('a, *, b=1', None, **kw)
+                    ra = sg.evaluated().return_annotation
+                    f0 = support.f('a', None, **kw)
+                if ra is not None:
+                    fails.append('s-return-none: s(\'a, *, b=1\', None, %s) has return annotation %r, expected None' % (kw, ra))
+                if 'return' not in getattr(f0, '__annotations__', {}) and not kw.get('use_modifiers_annotate'):
+                    fails.append('s-return-none: f(\'a\', None, %s) has no return annotation' % (kw,))
+            except Exception as e:  # noqa
+                fails.append('s-return-none-raises: %s %s %s' % (kw, type(e).__name__, e))
         # deterministic probe of finding D41: a default whose text contains the separators read_sig splits on
         for dv in ((1, 2), 'a, b', ' -> '):
             psig = inspect.Signature([inspect.Parameter('a', inspect.Parameter.POSITIONAL_OR_KEYWORD, default=dv)])
